@@ -10,6 +10,7 @@ import QuantityModel.Model.Quantity
 import QuantityModel.Model.Catalogue
 import QuantityModel.Model.Money
 import QuantityModel.Model.Allocate
+import QuantityModel.Model.Text
 import QuantityModel.Gen.Iso4217
 import QuantityModel.Gen.Catalogue
 import QuantityModel.Gen.TempTable
@@ -496,6 +497,55 @@ def stepReg (st : DState) (args : List String) : Option (DState × String) :=
             some (st, s!"ok {",".intercalate (ps.map ratStr)}@{usym r qa.unit}:{(r.cls (r.unitCls qa.unit)).name} rem={ratStr rem}")
       | some (.error e) => some (st, "err " ++ e.name)
       | none => some (st, bad)
+  | ["q_str", a] =>
+    -- `str(q)`, `format(q)`: amount token carries the representation
+    match a.splitOn "@" with
+    | [atok, u] =>
+      match unitId? r u with
+      | none => some (st, bad)
+      | some _ =>
+        let rep : Option AmountRepr :=
+          if atok.startsWith "F:" then (parseRat? (atok.drop 2).toString).map .frac
+          else match decPair? atok with
+            | some (v, p) => some (.dec v p)
+            | none => (parseRat? atok).map .frac
+        rep.map fun rp => (st, "ok " ++ String.ofList (renderQty rp u))
+    | _ => some (st, bad)
+  | ["q_parse", cls, text, unitArg, dflt] =>
+    -- `Cls(text[, unit])` / `Quantity(text[, unit])`; `text` has blanks encoded as given
+    match Rounding.ofName? dflt, (if cls == "-" then some none else (clsId? r cls).map some),
+      (if unitArg == "-" then some none else (unitId? r unitArg).map some) with
+    | some d, some c, some uarg =>
+      match parseQtyStr ((text.replace "\\t" "\t").replace "\\n" "\n").toList with
+      | .error e => some (st, "err " ++ e.name)
+      | .ok (amt, sym) =>
+        let symUnit : Except Err (Option Nat) := match sym with
+          | none => .ok none
+          | some sy => match unitId? r (String.ofList sy) with
+            | some u => .ok (some u)
+            | none => .error .QuantityError
+        match symUnit with
+        | .error e => some (st, "err " ++ e.name)
+        | .ok su =>
+          let res : Except Err Qty :=
+            match su, uarg with
+            | some u, some ua =>
+              if u == ua then r.mkQty d c amt u
+              else
+                -- quantity in the symbol's unit, then converted to the requested unit
+                match r.mkQty d (some (r.unitCls u)) amt u with
+                | .error e => .error e
+                | .ok q0 => q.convert d q0 ua
+            | some u, none => r.mkQty d c amt u
+            | none, some ua => r.mkQty d c amt ua
+            | none, none =>
+              match c with
+              | none => .error .QuantityError
+              | some cc => match (r.cls cc).refUnit with
+                | some ru => r.mkQty d c amt ru
+                | none => .error .QuantityError
+          some (st, showQRes r res)
+    | _, _, _ => some (st, bad)
   | ["q_mixnum", op, _a, _kind] =>
     let mop : Option QState.MixOp := match op with
       | "add" => some .add | "radd" => some .radd | "sub" => some .sub | "rsub" => some .rsub
